@@ -12,7 +12,7 @@ pub struct Recorder {
 }
 
 impl Recorder {
-    fn groups(&mut self, p: &Params) -> Vec<Vec<u16>> {
+    fn groups(&mut self, p: &Params, overflow: bool) -> Vec<Vec<u16>> {
         let groups: Vec<Vec<u16>> = p.iter().map(|x| x.to_vec()).collect();
         let total: usize = groups.iter().map(|g| g.len()).sum();
         if p.len() != total {
@@ -32,7 +32,38 @@ impl Recorder {
         // The Debug text of Params is not part of any property (its layout may change); it only has
         // to be produced without panicking.
         let _ = format!("{:?}", p);
+        // "the same arguments": a parameter list must compare equal (the type's own `==`) to the
+        // list a fresh parser reports for the same parameters, whatever this parser saw before
+        // (audit wave 2, F29: the derived PartialEq compared stale slots beyond len())
+        // (not when the list overflowed: its last group may still be open, which is parser state, not content)
+        if total <= 32 && !overflow {
+            let spelled: Vec<String> = groups.iter().map(|g| g.iter().map(|v| v.to_string()).collect::<Vec<_>>().join(":")).collect();
+            let mut fresh = FreshParams(None);
+            let mut parser = new_parser();
+            for b in format!("\x1b[{}m", spelled.join(";")).bytes() {
+                parser.advance(&mut fresh, b);
+            }
+            match fresh.0 {
+                Some(f) if f.iter().map(|x| x.to_vec()).collect::<Vec<_>>() == groups => {
+                    #[allow(clippy::eq_op)]
+                    if !(*p == f && f == *p && p.clone() == *p) {
+                        self.api_errors.push(format!("Params {:?} is not == to the Params a fresh parser reports for the same parameter list (stale state from earlier sequences takes part in the comparison)", groups));
+                    }
+                }
+                _ => {}
+            }
+        }
         groups
+    }
+}
+
+/// keeps the parameter list of the first CSI dispatch
+struct FreshParams(Option<Params>);
+impl Perform for FreshParams {
+    fn csi_dispatch(&mut self, p: &Params, _i: &[u8], _ig: bool, _a: u8) {
+        if self.0.is_none() {
+            self.0 = Some(p.clone());
+        }
     }
 }
 
@@ -44,7 +75,7 @@ impl Perform for Recorder {
         self.ev.push(Ev::Exec(b));
     }
     fn hook(&mut self, p: &Params, i: &[u8], ig: bool, a: u8) {
-        let groups = self.groups(p);
+        let groups = self.groups(p, ig);
         self.ev.push(Ev::Hook {
             groups,
             inter: i.to_vec(),
@@ -65,7 +96,7 @@ impl Perform for Recorder {
         });
     }
     fn csi_dispatch(&mut self, p: &Params, i: &[u8], ig: bool, a: u8) {
-        let groups = self.groups(p);
+        let groups = self.groups(p, ig);
         self.ev.push(Ev::Csi {
             groups,
             inter: i.to_vec(),
